@@ -79,7 +79,7 @@ CLAIMED.update({
         "through rdflib with the SHACL-SPARQL pre-bindings). Coq proofs cover what pySHACL does with the rows: exactly the distinct solutions are kept (sound, complete up to equality of bindings, ?failure once), "
         "one result each, focus/value/path from ?this/?value/?path, and each result's messages are the templates instantiated with that solution's own bindings, for any number of results; ASK validators report one result per rejected value node. "
         "Correspondence over a template family of sh:sparql constraints and ASK/SELECT constraint components; forbidden syntax (MINUS, VALUES, SERVICE, AS ?this, nested SELECT) checked differentially.",
-   note=BASE_NOTE + "Not modelled: the SPARQL engine; the regex screens for forbidden syntax and the textual pre-binding of $PATH (differential only). Message substitution is compared against an independent reference renderer in the harness.",
+   note=BASE_NOTE + "Not modelled: the SPARQL engine; the regex screens for forbidden syntax and the textual pre-binding of $PATH (differential only). Message substitution ({?var}/{$var}) has its own Coq model (Sparql/Message.v: segments spell the template, bound values inserted verbatim and never re-scanned, unbound placeholders kept, dependence on the named bindings only) tied to both substitution sites of the code by a correspondence run on random templates and bindings.",
    technique="Coq proof over solution rows as data (oracle) + vm_compute correspondence + differential check of forbidden syntax",
    ref="4 (C05)"),
 })
